@@ -7,6 +7,13 @@ from harness import crowd
 ENGINES = {}
 
 
+def asan_summary(err):
+    import re
+    m = re.search(r"ERROR: AddressSanitizer: (\S+).*?\n(?:.*\n)*?\s+#0 .* in (\S+)", err or "")
+    return "[ASan: %s in %s]" % (m.group(1), m.group(2)) if m else ""
+
+
+
 def engine(name):
     if name not in ENGINES:
         ENGINES[name] = crowd.EngineProc(name)
@@ -16,7 +23,7 @@ def engine(name):
 def run_metric(case):
     r = engine(case["engine"]).call(case["label"], decarr(case["F"], 2), case["n_remove"])
     if r.get("crash"):
-        return {"exception": "ProcessCrash: %s engine died with exit code %s: %s" % (case["engine"], r.get("exit"), r.get("stderr", "")[-300:]), "crash": True}
+        return {"crash": True, "exit": r.get("exit"), "stderr": r.get("stderr", "")[-1500:], "d": None, "frame": True, "logs": [], "argpart": []}
     if "exception" in r:
         return {"exception": r["exception"]}
     return {"d": r["d"], "frame": r["frame"], "logs": r["log"], "argpart": r["argpart"]}
@@ -24,10 +31,17 @@ def run_metric(case):
 
 class C13(Check):
     ID = "C13"
-    IMPORTS = "From PV Require Import Model.Crowding Model.Fallback."
+    IMPORTS = "From PV Require Import Model.Crowding Model.Fallback Model.Kernels."
     ISOLATE = False
     LABELS = ["cd", "ce", "mnn", "2nn", "pcd"]
-    RULE = "get_crowding_function(label).do(F, n_remove=k)"
+    RULE = ("get_crowding_function(label).do(F, n_remove=k) for cd / ce / mnn / 2nn / pcd with BOTH engines (each in its own worker process, so a kernel crash is an "
+            "observation), non-dominated fronts of 1..24 points and 2..5 objectives: continuous simplex, grid, permutation-valued, constant objective, tied extremes, "
+            "duplicates; k in 0..N; values compared bit-exactly with the models of metrics.py, misc/*.py and of the compiled kernels (checked flat buffers; np.log2 and "
+            "np.argpartition answers recorded as oracles); independent reference implementations of the published definitions on tie-free fronts; "
+            "non-trivial = more than two points; distinct by hash")
+    ASSUMPTIONS = ["np.log2 (libm) and np.argpartition (introselect tie choice) are oracles; the argpartition answer is validated (mnn0_ok) by the model",
+                   "the compiled kernels are modelled from the .pyx and tied to the shipped .so by bit-exact runs; the Cython -> C++ translation and the compiler are trusted",
+                   "equality with the published definitions is decided by correspondence + independent reference implementations, not by a theorem (partial)"]
     QUICK_N = 400
     THOROUGH_N = 6000
 
@@ -42,21 +56,45 @@ class C13(Check):
         return run_metric(case)
 
     def oracle(self, case, obs):
+        if obs.get("crash"):
+            return "C13-crash: %s engine, metric %s, n_remove=%d: the process died (exit code %s) %s" % (
+                case["engine"], case["label"], case["n_remove"], obs.get("exit"), asan_summary(obs.get("stderr", "")))
         if not obs["frame"]:
             return "C13-frame: the caller's array was modified"
         F = decarr(case["F"], 2); d = np.array([float.fromhex(h) for h in obs["d"]])
         m = crowd.wellformed(case["label"], F, d)
         if m:
             return m
-        if case["label"] == "cd" and len(F) > 2 and not crowd.coordinate_ties(F):
-            ref = crowd.ref_cd(F)
-            if not np.allclose(np.where(np.isinf(d), 1e300, d), np.where(np.isinf(ref), 1e300, ref), rtol=1e-9, atol=1e-12):
-                return "C13-definition: cd differs from the crowding-distance definition"
+        if len(F) > 2 and not crowd.coordinate_ties(F):
+            ref = crowd.reference(case["label"], F, case["n_remove"])
+            if ref is not None and not np.allclose(np.where(np.isinf(d), 1e300, d), np.where(np.isinf(ref), 1e300, ref), rtol=1e-9, atol=1e-12):
+                return "C13-definition: %s (%s engine, n_remove=%d) differs from its published definition" % (case["label"], case["engine"], case["n_remove"])
         return None
 
     def coq(self, case, obs):
         logs = [(float.fromhex(a), float.fromhex(b)) for a, b in obs["logs"]]
-        return crowd.metric_term(case["label"], decarr(case["F"], 2), case["n_remove"], np.array([float.fromhex(h) for h in obs["d"]]), logs=logs, engine=case["engine"])
+        exp = None if obs.get("d") is None else np.array([float.fromhex(h) for h in obs["d"]])
+        return crowd.metric_term(case["label"], decarr(case["F"], 2), case["n_remove"], exp, logs=logs, argpart=obs.get("argpart"), engine=case["engine"])
+
+    def model_flags(self, results):
+        out = []
+        for i, (c, o) in enumerate(results):
+            a = getattr(self, "aux", {}).get(i, {})
+            if c.get("engine") == "compiled" and c["label"] in ("mnn", "2nn") and a.get("oob") and not o.get("crash"):
+                out.append((i, "compiled/mnn/OOB-read", "C13-memory: the model of c_calc_mnn_iter reads D[0, -1] (one element before the distance matrix) on this input"))
+        return out
+
+    def known(self, case, obs, msg):
+        """a failure is a known finding only if it happens in a compiled kernel and the MODEL predicts it:
+        a memory error first occurring at one of the recorded sites, or the duplicated-neighbour event of mnn"""
+        if case.get("engine") != "compiled" or case["label"] not in ("pcd", "mnn", "2nn"):
+            return None
+        a = getattr(self, "aux", {}).get(getattr(self, "cur", None), {})
+        if a.get("oob"):
+            return "compiled/pcd/OOB" if case["label"] == "pcd" else "compiled/mnn/OOB-read"
+        if a.get("dup") and case["label"] == "mnn" and msg.startswith("C13-definition"):
+            return "compiled/mnn/dup-neighbour"
+        return None
 
     def nontrivial(self, case, obs):
         return len(case["F"]) > 2
